@@ -668,6 +668,17 @@ func (g *mvGen) step(allowDrain bool) {
 			g.do(mvOp{Op: "open", Sn: int(all[r.Intn(len(all))])})
 		}
 	case x < 92:
+		if r.Intn(6) == 0 && len(ref.snapRef) > 0 {
+			// a scan of any snapshot ever created: NewIterator on a released one must refuse (and must
+			// not keep anything — a barrier session, a reference — behind)
+			var all []uint32
+			for sn := range ref.snapRef {
+				all = append(all, sn)
+			}
+			sort.Slice(all, func(i, j int) bool { return all[i] < all[j] })
+			g.do(mvOp{Op: "scan", Sn: int(all[r.Intn(len(all))])})
+			return
+		}
 		if os := g.openSnaps(); len(os) > 0 {
 			g.do(mvOp{Op: "scan", Sn: int(os[r.Intn(len(os))])})
 		}
